@@ -168,6 +168,55 @@ def handle (j : Json) : Except String Json := do
     | .error e => pure (Json.mkObj [("err", Json.str e)])
     | .ok r => pure (Json.mkObj [("usemask", J.ofArray J.ofNat r.usemask), ("pres", matJ r.pres),
         ("eigenval", vecJ r.eigenval), ("acoeff", matJ r.acoeff), ("filtflux", matJ r.filtflux)])
+  | "chi2v" =>
+    let n ← J.fNat j "n"
+    let b ← fVec j "b"
+    let sq ← fVec j "sq"
+    let a ← fVec j "a"
+    let r := computechi2Vec svdSym n (fn1 b) (fn1 sq) (fn1 a)
+    pure (Json.mkObj [("acoeff", vecJ r.acoeff), ("chi2", J.ofFloat r.chi2), ("yfit", vecJ r.yfit),
+      ("dof", J.ofInt r.dof), ("covar", matJ r.covar), ("var", vecJ r.var)])
+  | "hmf_zerocols" =>
+    -- only the column selection of `iterate` (the k-means start is not known before the columns are)
+    let N ← J.fNat j "N"
+    let M ← J.fNat j "M"
+    let s ← fMat j "s"
+    let w ← fMat j "w"
+    let nn ← J.fBool j "nonneg"
+    let sc : Nat → Nat → Float := fun i k => if nn then (if fn2 s i k < 0 then 0 else fn2 s i k) else fn2 s i k
+    match findContiguous M (fun k => !(zeroCol N sc (fn2 w) k)) with
+    | none => pure (Json.mkObj [("err", Json.str "ValueError")])
+    | some (c0, m') => pure (Json.mkObj [("col0", J.ofNat c0), ("ncol", J.ofNat m'),
+        ("nzero", J.ofNat (countN M (zeroCol N sc (fn2 w))))])
+  | "hmf_cols" =>
+    let N ← J.fNat j "N"
+    let M ← J.fNat j "M"
+    let K ← J.fNat j "K"
+    let nIter ← J.fNat j "n_iter"
+    let s ← fMat j "s"
+    let w ← fMat j "w"
+    let g0 ← fMat j "g0"
+    let nn ← J.fBool j "nonneg"
+    let eps ← J.fOpt J.float j "eps"
+    match iterateCols Float.sqrt solveGE jacobi N M K nIter 128 (fn2 s) (fn2 w) (fn2 g0) nn eps with
+    | .error e => pure (Json.mkObj [("err", Json.str e)])
+    | .ok r => pure (Json.mkObj [("a", matJ r.a), ("g", matJ r.g), ("col0", J.ofNat r.col0), ("ncol", J.ofNat r.ncol),
+        ("nzero", J.ofNat r.nzero)])
+  | "pca_max" =>
+    let nobj ← J.fNat j "nobj"
+    let npix ← J.fNat j "npix"
+    let niter ← J.fNat j "niter"
+    let nkeep ← J.fNat j "nkeep"
+    let maxiter ← J.fNat j "maxiter"
+    let flux ← fMat j "flux"
+    let ivar ← fMat j "ivar"
+    match pcaSolveMax Float.sqrt svdSym jacobi argsortF nobj npix niter nkeep maxiter (fn2 flux) (fn2 ivar) with
+    | .error e => pure (Json.mkObj [("err", Json.str e)])
+    | .ok (.single f) => pure (Json.mkObj [("single", vecJ f)])
+    | .ok (.full r) => pure (Json.mkObj [("usemask", J.ofArray J.ofNat r.usemask), ("pres", matJ r.pres),
+        ("outmask", J.ofArray (J.ofArray (fun (b : Bool) => Json.bool b)) r.outmask),
+        ("eigenval", vecJ r.eigenval), ("acoeff", matJ r.acoeff), ("filtflux", matJ r.filtflux),
+        ("passes", J.ofNat r.passes), ("ngood", J.ofNat r.ngood)])
   | _ => throw s!"C15: unknown op {op}"
 
 end PydlVerif.Driver.C15
